@@ -1,8 +1,7 @@
 (* Proofs/Base58CheckConvP.v — converse direction of the Base58Check and WIF codecs (C09):
    the strings raw_decode_base58 accepts are EXACTLY the encoder's outputs (so decoding is
-   injective on accepted strings), PrivateKey.parse followed by wif() gives the same string
-   for payloads of the two standard lengths, and a witness that the length condition cannot be
-   dropped (parse accepts payloads of any other length as an uncompressed key). *)
+   injective on accepted strings); PrivateKey.parse (after fix 6e4d66f) accepts exactly the
+   texts wif() produces, and parse followed by wif() gives the same string. *)
 From V Require Import Base.Prelude Base.Ints Model.Base58 Proofs.Base58P Proofs.Base58ConvP
   Proofs.AddressP.
 
@@ -52,16 +51,15 @@ Proof.
   - destruct l as [|x r]; cbn in HL; [lia|]. cbn [firstn nth app]. f_equal. apply IH. lia.
 Qed.
 
-(* PrivateKey.parse(w) = (secret, mainnet, compressed): the secret is in range, and when the
-   decoded payload has one of the two standard lengths (33 uncompressed, 34 compressed),
-   PrivateKey(secret, network).wif(compressed) is the string w itself *)
+(* PrivateKey.parse(w) = (secret, mainnet, compressed) (after fix 6e4d66f: payload of 33 bytes, or
+   34 bytes ending in 01): the secret is in range and PrivateKey(secret, network).wif(compressed)
+   is the text w itself *)
 Theorem wif_parse_encode w secret mainnet compressed :
   wif_parse hash256 w = Ok (secret, mainnet, compressed) ->
   1 <= secret < secp_n /\
+  wif_encode hash256 secret mainnet compressed = Ok w /\
   exists raw, raw_decode_base58 hash256 w = Ok raw /\
-    (compressed = true -> length raw = 34%nat) /\
-    ((compressed = true \/ length raw = 33%nat) ->
-     wif_encode hash256 secret mainnet compressed = Ok w).
+              length raw = (if compressed then 34 else 33)%nat.
 Proof.
   unfold wif_parse. intros H.
   destruct (raw_decode_base58 hash256 w) as [raw|] eqn:ER; [|discriminate]. cbn [bind] in H.
@@ -100,45 +98,54 @@ Proof.
     { cbn [skipn] in H. destruct (p =? 239); [|destruct (p =? 128); [|discriminate]];
         cbn [bind] in H; destruct (privkey_ok _); try discriminate; now injection H. }
     destruct (KEY (p :: body) p body eq_refl HB1 H) as [HR [-> ->]].
-    split; [exact HR|]. exists raw. split; [reflexivity|]. split; [intros _; exact E34|].
-    intros _. inversion HB1 as [|? ? _ HBb]; subst.
+    split; [exact HR|]. split; [|exists raw; split; [reflexivity|exact E34]].
+    inversion HB1 as [|? ? _ HBb]; subst.
     rewrite (ENC body HBb ltac:(cbn in L1; lia) HR).
     exact EW.
-  - apply Nat.eqb_neq in E34. cbn [bind] in H.
+  - destruct (length raw =? 33)%nat eqn:E33; [|discriminate]. apply Nat.eqb_eq in E33.
+    cbn [bind] in H.
     destruct raw as [|p body]; [discriminate|].
     assert (compressed = false) as ->.
     { cbn [skipn] in H. destruct (p =? 239); [|destruct (p =? 128); [|discriminate]];
         cbn [bind] in H; destruct (privkey_ok _); try discriminate; now injection H. }
     destruct (KEY (p :: body) p body eq_refl HBraw H) as [HR [-> ->]].
-    split; [exact HR|]. eexists. split; [reflexivity|]. split; [discriminate|].
-    intros [C|L33]; [discriminate|].
+    split; [exact HR|]. split; [|eexists; split; [reflexivity|exact E33]].
     inversion HBraw as [|? ? _ HBb]; subst.
-    rewrite (ENC body HBb ltac:(cbn in L33; lia) HR).
+    rewrite (ENC body HBb ltac:(cbn in E33; lia) HR).
     rewrite <- EW. now rewrite app_nil_r.
 Qed.
 
-(* The length condition cannot be dropped: the payloads 80 00..01 (33 bytes) and 80 01
-   (2 bytes) have different WIF-shaped texts and PrivateKey.parse reads both as the
-   uncompressed mainnet key 1. *)
-Theorem wif_parse_short_payload_refuted :
-  exists w1 w2, w1 <> w2 /\
-    wif_encode hash256 1 true false = Ok w1 /\
-    encode_base58_checksum hash256 [128; 1] = Ok w2 /\
-    wif_parse hash256 w1 = Ok (1, true, false) /\ wif_parse hash256 w2 = Ok (1, true, false).
+(* PrivateKey.parse accepts exactly the WIF texts: parse(w) = (secret, mainnet, compressed) iff
+   w is wif() of that key (which exists iff the secret is in [1, N-1]) *)
+Theorem wif_parse_iff w secret mainnet compressed :
+  wif_parse hash256 w = Ok (secret, mainnet, compressed) <->
+  wif_encode hash256 secret mainnet compressed = Ok w.
 Proof.
-  destruct (wif_roundtrip hash256 hash_len hash_ok 1 true false ltac:(unfold secp_n; lia))
-    as [w1 [E1 P1]].
+  split.
+  - intros H. exact (proj1 (proj2 (wif_parse_encode w secret mainnet compressed H))).
+  - intros E.
+    assert (HR : 1 <= secret < secp_n).
+    { destruct (Z_le_dec 1 secret) as [A|A]; [destruct (Z_lt_dec secret secp_n) as [B|B]; [lia|]|];
+        rewrite (wif_range hash256 secret mainnet compressed) in E by lia; discriminate. }
+    destruct (wif_roundtrip hash256 hash_len hash_ok secret mainnet compressed HR) as [w' [E' P]].
+    rewrite E in E'. injection E' as <-. exact P.
+Qed.
+
+(* ... hence parse is injective *)
+Theorem wif_parse_inj w1 w2 r :
+  wif_parse hash256 w1 = Ok r -> wif_parse hash256 w2 = Ok r -> w1 = w2.
+Proof.
+  destruct r as [[s m] c]. intros H1 H2.
+  apply wif_parse_iff in H1. apply wif_parse_iff in H2. congruence.
+Qed.
+
+(* the former counterexample (fixed by 6e4d66f): Base58Check(80 01) is no longer a key *)
+Theorem wif_short_payload_rejected :
+  exists w, encode_base58_checksum hash256 [128; 1] = Ok w /\ wif_parse hash256 w = Err.
+Proof.
   assert (HB2 : bytes_ok [128; 1]) by (repeat constructor; unfold byte_ok; lia).
   destruct (base58check_roundtrip hash256 hash_len hash_ok [128; 1] HB2) as [w2 [E2 [_ D2]]].
-  exists w1, w2. split; [|split; [exact E1|split; [exact E2|split; [exact P1|]]]].
-  - intros ->. unfold wif_encode in E1. change (privkey_ok 1) with true in E1. cbn iota in E1.
-    rewrite (int_to_be_ok2 1 32) in E1 by (unfold pow256; cbn; lia). cbn [bind] in E1.
-    assert (HB1 : bytes_ok (128 :: to_be 32 1 ++ [])).
-    { constructor; [unfold byte_ok; lia|]. rewrite app_nil_r. apply to_be_ok. }
-    pose proof (encode_base58_checksum_inj _ _ _ HB1 HB2 E1 E2) as EQ.
-    apply (f_equal (@length Z)) in EQ. cbn [length] in EQ. rewrite app_length, to_be_length in EQ.
-    cbn in EQ. lia.
-  - unfold wif_parse. rewrite D2. reflexivity.
+  exists w2. split; [exact E2|]. unfold wif_parse. rewrite D2. reflexivity.
 Qed.
 
 End WithHash.
